@@ -1,5 +1,5 @@
 from .. import facts
-from ..rules import factors, status, image, algebra, opacity, codec, geometry, sampling
+from ..rules import factors, status, image, algebra, opacity, codec, geometry, sampling, gradient
 
 
 def run(ck):
@@ -19,4 +19,5 @@ def run(ck):
     geometry.r14_hull_needs_constant_sign_of_w(ck, P, 'C09-R10')   # COVER_CLIP promotes an alpha-less source to opaque
     sampling.r20_cover_from_corners_needs_affine(ck, P)
     status.r_same_storage_needs_same_offsets(ck, P)   # the pixbuf paths take the alpha of an alpha-less source's undefined byte
+    gradient.r16_packed_channels_are_clamped(ck, P, 'C09-R14')   # a gradient flagged opaque must deliver opaque pixels
     codec.r17_converted_pixels_get_the_alpha_mask(ck, P, 'C09-R11')
